@@ -43,8 +43,12 @@ type Pipelined struct {
 	// the client against the MAC of its own query. BadSig (cyclic over the queries of a connection):
 	// that query is signed with a key value the server does not hold - its handler must see the
 	// failure, early and late, and answers unsigned.
+	// Serial: the late repliers of the round answer one after another (a mutex of the harness) instead
+	// of all at once - the state a writer carries from one request to the next, without two goroutines
+	// ever touching it at the same time.
 	Tsig   bool   `json:",omitempty"`
 	BadSig []bool `json:",omitempty"`
+	Serial bool   `json:",omitempty"`
 }
 
 // knownSharedTsigWriter is the id of the finding "on a stream connection every request is served with
@@ -87,6 +91,7 @@ func genPipelined(t *rapid.T) Pipelined {
 			return c
 		}
 		c.Tsig, c.API = true, "WriteMsg"
+		c.Serial = rapid.IntRange(0, 2).Draw(t, "serial") == 0
 		if rapid.Bool().Draw(t, "someBadlySigned") {
 			n := rapid.IntRange(2, 4).Draw(t, "badSigN")
 			for i := 0; i < n; i++ {
@@ -145,6 +150,9 @@ func checkPipelined(c Pipelined) error {
 	}
 	if c.Tsig {
 		cl = append(cl, "tsig")
+		if c.Serial {
+			cl = append(cl, "tsig,late-replies-one-after-another")
+		}
 		anyBad := false
 		for k := range c.Conns {
 			for i := range c.Conns[k] {
@@ -177,7 +185,7 @@ func checkPipelined(c Pipelined) error {
 		slots[k] = &slot{release: make(chan struct{})}
 	}
 	var writers sync.WaitGroup
-	var mu sync.Mutex
+	var mu, serial sync.Mutex
 	var bad []string
 	fail := func(format string, a ...any) {
 		mu.Lock()
@@ -220,6 +228,10 @@ func checkPipelined(c Pipelined) error {
 			case <-sl.release:
 			case <-time.After(hangLimit):
 				return
+			}
+			if c.Serial {
+				serial.Lock()
+				defer serial.Unlock()
 			}
 			var err error
 			if c.Tsig {
@@ -500,11 +512,12 @@ func joinLines(s []string) string {
 }
 
 // probeSharedTsigWriter: one in-memory stream connection, two correctly signed queries pipelined, both
-// handlers answer (signed) once both queries have been read. While the defect is present the reply
+// handlers answer (signed) once both queries have been read, one after the other (no two goroutines use
+// the writer at the same time, so the race detector has nothing to say about the probe). While the defect is present the reply
 // that is written first is signed over the MAC of the query that was read last and the second over
 // the MAC of the first reply, so at least one of them does not verify against its own query.
 func probeSharedTsigWriter() error {
-	return checkPipelined(Pipelined{Transport: "memTCP", Conns: [][]int{{40, 512}}, API: "WriteMsg", Tsig: true, Seed: 1})
+	return checkPipelined(Pipelined{Transport: "memTCP", Conns: [][]int{{40, 512}}, API: "WriteMsg", Tsig: true, Serial: true, Seed: 1})
 }
 
 func init() {
